@@ -1283,6 +1283,14 @@ class Interp:
             return a is b
         if isinstance(a, (SymList, SymMap)) or isinstance(b, (SymList, SymMap)):
             raise Unsupported("== on symbolic container", node)
+        if isinstance(a, CharBag) and isinstance(b, CharBag):
+            # two strings known only as multisets of characters: the same object is equal to itself; otherwise equality is an unknown that implies equal counts
+            if a is b:
+                return True
+            eq = self.ctx.fresh("mode-strings-equal", z3.BoolSort())
+            if a.alphabet is not None and a.alphabet == b.alphabet:
+                self.ctx.assume(z3.Implies(eq, z3.And(a.other == b.other, *[a.counters[c] == b.counters[c] for c in a.alphabet])))
+            return eq
         try:
             a, b = lift(a), lift(b)
         except Unsupported:
